@@ -148,10 +148,11 @@ fn run_read_case(c: &ReadCase, rep: &mut Report) {
 }
 
 fn rand_frame(rng: &mut Rng) -> (u16, u8, Vec<u8>) {
-    let len = match rng.below(5) {
-        0 => 0,
-        1 => 1,
-        2 => 16,
+    let len = match rng.below(12) {
+        0 | 1 => 0,
+        2 | 3 => 1,
+        4 | 5 => 16,
+        6 => 253 + rng.usize(3), // the longest lines the format allows (519..523 bytes)
         _ => rng.usize(40),
     };
     (rng.edgy_u16(), rng.edgy_u8(), rng.bytes(len))
@@ -310,6 +311,15 @@ fn exhaustive_read(which: usize, rep: &mut Report) {
     for pos in 0..four.len() {
         run_read_case(&ReadCase { tape: four.clone(), boundaries: vec![], faults: vec![(pos, ReadFault::Interrupted, 1)], reads: 5, label: "four_frames_interrupted_each_position" }, rep);
         run_read_case(&ReadCase { tape: four.clone(), boundaries: vec![pos], faults: vec![(pos, ReadFault::Fail(io::ErrorKind::BrokenPipe), usize::MAX)], reads: 5, label: "four_frames_error_each_position" }, rep);
+    }
+    // the longest possible lines back to back: 255 / 254 / 255 data bytes, then a short frame and a trailing byte
+    let mut long = vec![];
+    for (i, n) in [255usize, 254, 255, 1].into_iter().enumerate() {
+        long.extend(refs::enc_crlf(0x0100 + i as u16, 0, &vec![0xA0 + i as u8; n]));
+    }
+    long.push(b':');
+    for frag in [vec![], vec![521usize, 523, 1044], (1..long.len()).step_by(7).collect::<Vec<usize>>()] {
+        run_read_case(&ReadCase { tape: long.clone(), boundaries: frag, faults: vec![], reads: 6, label: "maximum_length_frames_back_to_back" }, rep);
     }
     rep.count("exhaustive_read_sets_done");
 }
